@@ -135,6 +135,86 @@ theorem fact_empty_vp_checked :
 theorem fact_audience_exact :
     Facts.C02.validateAudienceConds = ["err != nil", "proof.Domain != nil", "aud == expected.String()"] := by decide
 
+/-- every if-condition (verbatim) of the functions that decide about a token, the return expressions of the small
+    helpers, the request members handed to the two grant handlers, the session the authorization request stores and
+    the key prefixes of the session stores are the ones the model mirrors. A weakened comparison (`==` to
+    `HasPrefix`/`EqualFold`), a dropped check or a shared store prefix flips this. -/
+theorem fact_deciding_conditions :
+    Facts.C02.authorizeRequestSessionInit =
+      ["ClientID=params.get(oauth.ClientIDParam)", "Scope=params.get(oauth.ScopeParam)", "OwnSubject=&subject", "ClientState=params.get(oauth.StateParam)", "RedirectURI=redirectURL.String()", "OpenID4VPVerifier=newPEXConsumer(presentationDefinitions)", "PKCEParams=PKCEParams{Challenge: params.get(oauth.CodeChallengeParam), ChallengeMethod: params.get(oauth.CodeChallengeMethodParam)}"] ∧
+    Facts.C02.condsAuthorizeRequest =
+      ["redirectURI == \"\"", "err != nil", "params.get(jwt.AudienceKey) != clientID.String()", "params.get(oauth.CodeChallengeParam) == \"\"", "params.get(oauth.CodeChallengeMethodParam) == \"\" || params.get(oauth.CodeChallengeMethodParam) != \"S256\"", "err != nil", "err != nil", "err != nil"] ∧
+    Facts.C02.condsAuthorizeResponse =
+      ["request.Body.State == nil", "request.Body.VpToken == nil", "err != nil || len(pexEnvelope.Presentations) == 0", "err != nil", "request.SubjectID != *session.OwnSubject", "err != nil", "request.Body.PresentationSubmission == nil", "err != nil", "err != nil", "err != nil", "err != nil", "err != nil", "err != nil", "nextWalletOwnerType != nil", "err != nil", "err != nil"] ∧
+    Facts.C02.condsCodeToken =
+      ["request.Code == nil", "request.CodeVerifier == nil", "request.ClientId == nil", "err != nil", "oauthSession.ClientID != *request.ClientId", "!validatePKCEParams(oauthSession.PKCEParams)", "err != nil", "err != nil"] ∧
+    Facts.C02.condsCreateAccessToken =
+      ["err != nil", "err != nil", "err != nil", "dpopToken != nil"] ∧
+    Facts.C02.condsDefinitionForScope =
+      ["err != nil", "errors.Is(err, policy.ErrNotFound)"] ∧
+    Facts.C02.condsExtractChallenge =
+      ["err != nil", "proof.Challenge != nil && *proof.Challenge != \"\""] ∧
+    Facts.C02.condsExtractNonce =
+      ["err != nil", "proof.Nonce != nil && *proof.Nonce != \"\""] ∧
+    Facts.C02.condsFulfill =
+      ["curr.Id == definitionID", "definition == nil", "v.isFulfilled(definitionID)", "err != nil"] ∧
+    Facts.C02.condsHandleTokenRequest =
+      ["err != nil", "request.Body.PresentationSubmission == nil || request.Body.Scope == nil || request.Body.Assertion == nil || request.Body.ClientId == nil"] ∧
+    Facts.C02.condsIntrospect =
+      ["input == \"\"", "err != nil", "errors.Is(err, storage.ErrNotFound)", "token.Expiration.Before(time.Now())", "token.DPoP != nil", "token.InputDescriptorConstraintIdMap != nil", "isReserved"] ∧
+    Facts.C02.condsIntrospectPlain =
+      ["!slices.Contains(headers[\"Content-Type\"], \"application/x-www-form-urlencoded\")", "err != nil", "response == nil"] ∧
+    Facts.C02.condsLocalPDPDefinitions =
+      ["!exists"] ∧
+    Facts.C02.condsNext =
+      ["required && !v.isFulfilled(def.Id)", "required && !v.isFulfilled(def.Id)"] ∧
+    Facts.C02.condsPresentationNonce =
+      ["err != nil", "nonce == \"\"", "err != nil", "nonce == \"\"", "nonce != \"\" && !slices.Contains(nonces, nonce)", "len(nonces) > 1", "!allPresent", "len(errs) > 0", "err != nil", "state != stateFromNonce"] ∧
+    Facts.C02.condsPresentationSigner =
+      ["err != nil", "kid == \"\"", "err != nil", "err != nil", "err != nil || verificationMethod.DID.Empty()"] ∧
+    Facts.C02.condsPresenterIsCredentialSubject =
+      ["err != nil", "err != nil", "!credentialSubjectID.Equals(*signerDID)"] ∧
+    Facts.C02.condsPutIfAbsent =
+      ["err == nil", "!errors.Is(err, ErrNotFound)", "err != nil"] ∧
+    Facts.C02.condsResolveInputDescriptorValues =
+      ["err != nil", "exists"] ∧
+    Facts.C02.condsResolveSubjectDID =
+      ["err != nil", "!subjectID.Empty() && !subjectID.Equals(*sid)"] ∧
+    Facts.C02.condsS2S =
+      ["err != nil", "err != nil", "err != nil", "err != nil", "err != nil", "err != nil", "err != nil", "err != nil", "err != nil", "err != nil", "err != nil"] ∧
+    Facts.C02.condsS2SNonce =
+      ["nonce == \"\"", "err != nil", "!fresh"] ∧
+    Facts.C02.condsStoreGet =
+      ["err != nil", "errors.Is(err, store.NotFound{}) || errors.Is(err, memcache.ErrCacheMiss)", "len(val) == 0"] ∧
+    Facts.C02.condsStorePut =
+      ["opts.ttl <= 0", "err != nil"] ∧
+    Facts.C02.retsDpopFromRequest =
+      ["nil, nil", "nil, oauth.OAuth2Error{Code: oauth.InvalidDPopProof, Description: \"DPoP header is invalid\", InternalError: err}", "dpopProof, nil"] ∧
+    Facts.C02.retsIsFulfilled =
+      ["fulfilled"] ∧
+    Facts.C02.retsSubjectToBaseURL =
+      ["*r.auth.PublicURL().JoinPath(\"oauth2\", subject)"] ∧
+    Facts.C02.retsValidatePKCE =
+      ["challenge == params.Challenge", "false"] ∧
+    Facts.C02.storeKeyPrefixes =
+      ["s2sNonceStore=s2s/nonce", "accessTokenServerStore=serveraccesstoken", "accessTokenClientStore=clientaccesstoken", "accessTokenCache=accesstokencache", "authzRequestObjectStore=oauth/requestobject", "oauthCodeStore=oauth/code", "oauthNonceStore=oauth/nonce", "oauthClientStateStore=oauth/client_state", "useNonceOnceStore=nonceonce"] ∧
+    Facts.C02.tokenRequestDispatchArgs =
+      ["ctx", "*request.Body", "|", "ctx", "*request.Body.ClientId", "request.SubjectID", "*request.Body.Scope", "*request.Body.PresentationSubmission", "*request.Body.Assertion", "|"] ∧
+    Facts.C02.tokenRequestGrantCases =
+      ["switch request.Body.GrantType", "oauth.AuthorizationCodeGrantType", "oauth.PreAuthorizedCodeGrantType", "oauth.VpTokenGrantType", "default"] :=
+  ⟨rfl, rfl, rfl, rfl, rfl, rfl, rfl, rfl, rfl, rfl, rfl, rfl, rfl, rfl, rfl, rfl, rfl, rfl, rfl, rfl, rfl, rfl, rfl, rfl, rfl, rfl, rfl, rfl, rfl, rfl, rfl⟩
+
+/-- the windows themselves (Nuts RFC021: presentations valid for at most 5 s, 5 s clock skew; the verifier's skew; 15
+    minutes token validity; one minute for an authorization-code flow). The model takes the durations as parameters,
+    so without this pin a changed constant would silently move model AND expectations. -/
+theorem fact_windows :
+    Facts.C02.s2sMaxValidityMs = 5000 ∧ Facts.C02.s2sMaxClockSkewMs = 5000 ∧ Facts.C02.verifierMaxSkewMs = 5000 ∧
+    Facts.C02.accessTokenValidityMs = 900000 ∧ Facts.C02.oauthFlowTimeoutMs = 60000 := by decide
+
+/-- the session stores of this property live under pairwise different key prefixes -/
+theorem fact_store_prefixes_distinct :
+    Facts.C02.storeKeyPrefixValues.Nodup := by decide
+
 /-- the s2s nonce is remembered for the whole window in which the verifier accepts the presentation -/
 theorem fact_nonce_ttl_covers_window :
     Facts.C02.s2sMaxValidityMs + 2 * Facts.C02.verifierMaxSkewMs ≤ Facts.C02.s2sNonceTtlMs := by decide
